@@ -79,6 +79,29 @@ theorem render_parse_utc (p : Nat) (hp : p ≤ 6) (μ bias : Int) (db : TzDb) (t
   rw [if_neg (by rw [Bool.not_eq_true]; exact (inRange_iff _).2 hr)]
   rw [recombine p hp μ bias]
 
+/-- the same with `tzdetail=True` (the rendering ends in ` UTC`), when the data base resolves `UTC`
+to the UTC zone (as `pytz.timezone('UTC')` does) -/
+theorem render_parse_utc_named (p : Nat) (hp : p ≤ 6) (μ bias : Int) (db : TzDb)
+    (hdb : db.info utcZone.name = .ok (utcZone, none)) (text : List Char)
+    (h : render p μ bias none .full = some text) :
+    parse db text = .ok (renderedInstant p μ bias) := by
+  obtain ⟨hr, hv, hf, ht⟩ := render_eq p hp μ bias none .full text h
+  simp only [Option.getD_none] at hr hv hf ht
+  have hper : ∀ u, periodAt utcZone u = utcPeriod := fun _ => rfl
+  rw [hper] at hv ht
+  simp only [suffixOf, Option.getD_none] at ht
+  have hword : ZoneWord utcZone.name := ⟨by decide, 'U', _, rfl, by decide⟩
+  rw [ht, parse_format_zone db _ p _ hv hp hf utcZone.name hword utcZone none hdb]
+  unfold instantOf
+  rw [secsOfCivil_civilOfSecs]
+  have hloc := localize_unique_case utcZone (renderInstant p μ bias / 1000000 + utcPeriod.off) utcPeriod rfl rfl
+    (by show _ + (periodAt utcZone _).off = _; rw [hper]; simp [utcPeriod])
+    (by simpa [utcPeriod] using hr) none
+  rw [hloc]
+  simp only [utcPeriod, Int.add_zero, Int.sub_zero]
+  rw [if_neg (by rw [Bool.not_eq_true]; exact (inRange_iff _).2 hr)]
+  rw [recombine p hp μ bias]
+
 /-! ### zones -/
 
 /-- **`localize` accepts exactly the wall-clock times with one preimage** (zone given without
